@@ -3,7 +3,8 @@
 # re-applies a stored seeded change to a scratch worktree of /repo and runs the named checks (default: the
 # property recorded in the seed's meta.json) against it; prints one line per check; removes the worktree.
 name=$1; shift
-sd=/verif/seeded/$name
+V=$(cd "$(dirname "$0")" && pwd)
+sd=$V/seeded/$name
 [ -f $sd/patch.diff ] || { echo "no such seed $name"; exit 2; }
 props="$@"
 [ -n "$props" ] || props=$(/venv/bin/python -c "import json;print(json.load(open('$sd/meta.json'))['property'].replace(',',' '))")
@@ -14,7 +15,7 @@ if ! git -C $wt apply $sd/patch.diff 2>/dev/null; then
   echo "$name: PATCH-DOES-NOT-APPLY (repo changed since the seed was made)"
 else
   for p in $props; do
-    r=$(cd /verif && VERIF_REPO=$wt VERIF_NO_EVIDENCE=1 VERIF_SKIP_MC=1 VERIF_REPLAY_DIR=/tmp/reseed/replays-$name ./check $p 2>&1 | grep -E "^VIOLATION|^OK|^MACHINERY" | head -1 | cut -c1-80)
+    r=$(cd $V && VERIF_REPO=$wt VERIF_NO_EVIDENCE=1 VERIF_SKIP_MC=1 VERIF_REPLAY_DIR=/tmp/reseed/replays-$name ./check $p 2>&1 | grep -E "^VIOLATION|^OK|^MACHINERY" | head -1 | cut -c1-80)
     echo "$name $p: $r"
   done
 fi
